@@ -39,8 +39,13 @@ enum Kind : uint2 {
 const LIMIT = 3
 
 message Inner {
+    enum Mode : uint3 {
+        MODE_A = 0
+        MODE_B = 5
+    }
     uint3 a = 1
     int5 s = 2
+    Mode mode = 3
 }
 
 message Outer {
@@ -54,9 +59,15 @@ message Outer {
 }
 
 message Last%s {
+    enum Mode : uint12 {
+        MODE_Z = 0
+        MODE_BIG = 3000
+    }
     Outer o = 1
     lib.LM m = 2
     Inner top = 3
+    Mode mode = 4
+    Mode[2] modes = 5
 }
 """ % (q("alias_array"), q("nested_message"), q("array_field"), q("message"))
     return files
